@@ -78,6 +78,9 @@ class UfuncSite:
 
 
 def resolve_callable(repo, fi, expr, cfg, rd, at_node_stmt):
+    if isinstance(expr, ast.IfExp):
+        # kernel = a if cond else b : both alternatives
+        return resolve_callable(repo, fi, expr.body, cfg, rd, at_node_stmt) + resolve_callable(repo, fi, expr.orelse, cfg, rd, at_node_stmt)
     sym = repo.resolve_expr(fi.module, expr)
     if isinstance(sym, FuncInfo):
         if isinstance(expr, ast.Name):
